@@ -322,6 +322,11 @@ ContinuousRoundTrip ==
                   /\ ScaledOfPixNum(g, p) = q
                   /\ PixNum(g, ScaledOfPixNum(g, p)) = p
                   /\ << FloorDiv(p[1], g.sy), FloorDiv(p[2], g.sx) >> = IndexOf(g, q)
+    \* whole pixel coordinates <<i,j>> (in the model's own pair: the top-left corner of the pixel square) invert too
+    /\ Seen2 => \A c \in Cells(g) :
+                  LET p == << c[1] * g.sy, c[2] * g.sx >> IN
+                  /\ ScaledOfPixNum(g, p) = << SqYhi(g, c), SqXlo(g, c) >>
+                  /\ PixNum(g, ScaledOfPixNum(g, p)) = p
     /\ (mode = "g2" /\ phase = "continuous") => obs.back = obs.q
 
 \* the extent is exactly the union of the pixel squares: squares lie inside it, are pairwise disjoint, touch all
